@@ -456,6 +456,25 @@ pub fn gen_udp_plan_for(g: &mut Gen, thorough: bool, max_payload: usize, edge: O
         targets[1].name = name;
         targets[1].port = if port < 39_000 { port + 1 + g.below(50) as u16 } else { port - 1 };
     }
+    else if g.chance(25) {
+        // neighbouring addresses: further targets whose (address, port) differs from the first target's in exactly one bit
+        // (of the port, or of the low 24 bits of the address), or that swap a byte between the two - whatever the relay keys
+        // its tables with has to tell them apart
+        let (ip0, port0) = (u32::from_be_bytes(targets[0].ip), targets[0].port);
+        targets[0].name = None;
+        targets.truncate(1);
+        for _ in 0..g.range(2, 5) {
+            let (ip, port) = match g.below(10) {
+                0..=4 => (ip0, port0 ^ (1 << g.below(16))),
+                5..=8 => (ip0 ^ (1 << g.below(24)), port0),
+                _ => ((ip0 & 0xffff_0000) | port0 as u32, (ip0 & 0xffff) as u16),
+            };
+            if port < 1024 || targets.iter().any(|t| u32::from_be_bytes(t.ip) == ip && t.port == port) {
+                continue;
+            }
+            targets.push(UdpTarget { ip: ip.to_be_bytes(), port, name: None, replies: 1, reply_size: 0 });
+        }
+    }
     else if n_targets >= 2 && g.chance(35) {
         // different hosts answering from the same port (two resolvers on :53): only the address tells them apart
         let port = targets[0].port;
@@ -486,7 +505,7 @@ pub fn gen_udp_plan_for(g: &mut Gen, thorough: bool, max_payload: usize, edge: O
                 // now and then a datagram that cannot be forwarded at all (too large once the protocol's header is added): it may be
                 // dropped whole, and the datagrams that follow it must be served as usual
                 let size = if max_payload > 60_000 && g.chance(4) { 65507 - g.range(0, 40) as usize } else { size.min(max_payload) };
-                ops.push(UdpOp::Send { t: g.below(n_targets as u64) as usize, size });
+                ops.push(UdpOp::Send { t: g.below(targets.len() as u64) as usize, size });
             }
         }
         apps.push(ops);
